@@ -230,6 +230,9 @@ def _classification(fn):
         raise TranslateError("run_test: --width cut not found")
     if not (_contains(width.body, lambda n: isinstance(n, ast.Break)) and _contains(width.body, lambda n: _calls(n, "warn"))):
         raise TranslateError("run_test: --width cut must warn and break")
+    for n in _walk_no_nested_defs(width):
+        if _calls(n, "warn") and (n.keywords or len(n.args) != 1):
+            raise TranslateError("run_test: the --width warning must be a plain warn(<text>) (never de-duplicated)")
     if loop.body.index(width) < loop.body.index(chain):
         raise TranslateError("run_test: --width cut now precedes the classification of the path")
     tw = Translator(names={"width": "width", "path_id": "path_id"})
